@@ -49,4 +49,4 @@ class Canonical:
     if not self.is_canonical():
       return self.complement()
     else:
-      return self()
+      return self
